@@ -354,7 +354,7 @@ def respell_ebuild(s, rng):
     if r < 0.8:
         # trailing zero in a zero-led component
         parts = s.split(".")
-        for i in range(1, len(parts)):
+        for i in range(0, len(parts)):
             if parts[i][:1] == "0" and parts[i].isdigit():
                 parts[i] += "0"
                 return ".".join(parts)
